@@ -7,13 +7,18 @@ import oracle as orc
 from common import Rng, frac_of, enc_exact, enc_round, f64_bits
 
 
+NOSTD_BINS = ("x_core", "x_rate")
+
+
 def prepare(backends=("f64", "dec"), bins=("x_core",), profile="dev"):
     env = {}
     for b in backends:
         paths = dict(fw.build_bins(b, list(bins), profile))
-        if "x_core" in paths and profile == "dev":
-            # the same executor with the library's "std" feature off (a fraction of every core workload runs on it)
-            paths["x_core_nostd"] = fw.build_bins(b, ["x_core"], nostd=True)["x_core"]
+        nb = [x for x in bins if x in NOSTD_BINS]
+        if nb and profile == "dev":
+            # the same executors with the library's "std" feature off (a fraction of the workloads runs on them)
+            for k, v in fw.build_bins(b, nb, nostd=True).items():
+                paths[k + "_nostd"] = v
         env[b] = {"bins": paths, "reg": registry.load(b, paths) if "x_core" in paths else None}
     return env
 
